@@ -261,3 +261,106 @@ func (m verifMockCallableValue) Call(in []reflect.Value) []reflect.Value {
 	*m.invoked = true
 	return nil
 }
+
+// comparable pool for the thunk harness (== on the interface values must not panic): includes zero values
+// of concrete types, which must arrive as themselves and not as nil when the parameter is an interface
+var verifC19SharedInt = new(int)
+
+func verifC19PoolCmp(name string, i int) (interface{}, int) {
+	var nilIntPtr *int
+	switch verifNondetIntN(name, i) {
+	case 0:
+		return nil, verifKNil
+	case 1:
+		return 7, verifKInt
+	case 2:
+		return 0, verifKInt
+	case 3:
+		return "s", verifKString
+	case 4:
+		return "", verifKString
+	case 5:
+		return nilIntPtr, verifKNilIntPtr
+	case 6:
+		return verifC19SharedInt, verifKIntPtr
+	default:
+		return int64(0), verifKInt64
+	}
+}
+
+// C19 callargs_thunk: when CallArgs accepts an argument list, the thunk it builds (the function
+// callable.Call runs to obtain the arguments) yields exactly one value per argument and each value is the
+// given argument - a zero value of a concrete type stays that value when the parameter is an interface,
+// an untyped nil becomes the parameter type's nil.
+func Harness_C19_callargs_thunk() {
+	fn, _, _, _ := verifC19Func()
+	n := verifNondetInt("nargs")
+	verifAssume(n >= 0 && n <= 3)
+	args := make([]interface{}, 0, 3)
+	for i := 0; i < n; i++ {
+		v, _ := verifC19PoolCmp("arg", i)
+		args = append(args, v)
+	}
+	cfg := &callConfig{this: reflect.TypeOf(fn)}
+	if err := CallArgs(args...)(cfg); err != nil {
+		return
+	}
+	outs := reflect.ValueOf(cfg.args).Call(nil)
+	verifAssert(len(outs) == n, "thunk_yields_one_value_per_argument")
+	for i := 0; i < n && i < len(outs); i++ {
+		if args[i] == nil {
+			verifAssert(outs[i].IsNil(), "untyped_nil_argument_arrives_as_nil")
+		} else {
+			verifAssert(outs[i].Interface() == args[i], "thunk_yields_exactly_the_given_arguments")
+		}
+	}
+	verifReach("thunk-checked")
+}
+
+// C19 callresults_thunk: the results thunk built by CallResults (the function callable.Call runs on the
+// values the call returned) stores exactly those values through the given targets and touches nothing else.
+func Harness_C19_callresults_thunk() {
+	var i, other int
+	var a interface{}
+	var s string
+	other = 99
+	useAny := verifNondetBool("target_is_interface_var")
+	if verifNondetBool("two_results") {
+		fn := func() (string, int) { return "", 0 }
+		cfg := &callConfig{this: reflect.TypeOf(fn)}
+		var t0 interface{} = &s
+		if useAny {
+			t0 = &a
+		}
+		if err := CallResults(t0, &i)(cfg); err != nil {
+			verifAssert(false, "valid_targets_are_accepted")
+			return
+		}
+		reflect.ValueOf(cfg.results).Call([]reflect.Value{reflect.ValueOf("r"), reflect.ValueOf(41)})
+		if useAny {
+			verifAssert(a == "r" && s == "", "results_are_stored_through_the_given_targets")
+		} else {
+			verifAssert(s == "r" && a == nil, "results_are_stored_through_the_given_targets")
+		}
+		verifAssert(i == 41 && other == 99, "results_are_stored_through_the_given_targets")
+		return
+	}
+	fn := func() int { return 0 }
+	cfg := &callConfig{this: reflect.TypeOf(fn)}
+	var t0 interface{} = &i
+	if useAny {
+		t0 = &a
+	}
+	if err := CallResults(t0)(cfg); err != nil {
+		verifAssert(false, "valid_targets_are_accepted")
+		return
+	}
+	reflect.ValueOf(cfg.results).Call([]reflect.Value{reflect.ValueOf(0)})
+	if useAny {
+		verifAssert(a == 0 && i == 0, "a_zero_result_is_stored_as_itself")
+		verifAssert(a != nil, "a_zero_result_is_stored_as_itself")
+	} else {
+		verifAssert(i == 0 && a == nil, "a_zero_result_is_stored_as_itself")
+	}
+	verifAssert(other == 99, "nothing_else_is_touched")
+}
